@@ -6,18 +6,29 @@ package channel_test
 // on in-memory file systems owned by the harness) is provisioned per case inside a synctest
 // bubble. The cluster is wired exactly as core/pkg/distribution/mock wires it (same
 // networks, same options); the harness keeps the wiring itself so that it can close and
-// reopen one node's distribution layer (optionally together with its storage engines) over
-// the same storage, and list the time-series engine's directory.
+// reopen one node's distribution layer and time-series engine over the same storage, and
+// list the engine's directory. The cluster's goroutines run freely (op tier).
 //
 // A case is a name-validation setting plus a script of batched creates (all channel kinds,
 // explicit leaseholders, RetrieveIfNameExists / OverwriteIfNameExistsAndDifferentProperties),
 // renames (Rename / RenameMany / MapRename), deletes (Delete / DeleteMany / DeleteByName /
 // DeleteManyByNames) and restarts, each through a drawn gateway node. Names come from a
-// tiny pool so that collisions, invalid names and "_time" suffixes are common; data
+// small pool so that collisions, invalid names and "_time" suffixes are common; data
 // channels refer to index channels that exist, that live on another node, or that do not
-// exist. Oracle: the set of live channels (key, leaseholder, name, data type, index,
-// is_index, virtual) predicted from the requests, compared after every operation with the
-// metadata of every node and with every node's engine.
+// exist; targets may be deleted, never created, or internal channels.
+//
+// Oracle: the set of live channels (key, leaseholder, name, data type, index, is_index,
+// virtual) predicted from the requests. After every request, once metadata has propagated
+// (virtual time), it is compared with cluster metadata (every channel's copy at its
+// authority; every other node must hold the same) and with every node's engine (directory
+// listing + RetrieveChannel): exactly the non-free channels leased to the node; free
+// channels live in metadata only. Keys are checked for uniqueness, leaseholder and reuse;
+// names (validation on) for validity and uniqueness; deleted channels for being refused
+// by retrieval, writers and iterators at both layers. A FAILED request may leave behind
+// any part of what it asked for (the statement does not make requests atomic); what it
+// left is taken over and the two stores are compared as after any other request.
+//
+// Triage aids (never set by the check): VERIF_C15_ONLY, VERIF_C15_DEBUG, VERIF_C15_OUTLOG.
 
 import (
 	"context"
@@ -52,6 +63,7 @@ import (
 	"github.com/synnaxlabs/synnax/pkg/storage"
 	"github.com/synnaxlabs/synnax/pkg/storage/ts"
 	"github.com/synnaxlabs/x/address"
+	"github.com/synnaxlabs/x/gorp"
 	xfs "github.com/synnaxlabs/x/io/fs"
 	"github.com/synnaxlabs/x/kv/pebblekv"
 	"github.com/synnaxlabs/x/telem"
@@ -92,7 +104,7 @@ type c15Op struct {
 	Names []string `json:"names,omitempty"` // rename: new names
 	// many (RenameMany/DeleteMany) single (Rename/Delete/DeleteByName on the first target)
 	// names (MapRename / DeleteManyByNames)
-	API    string `json:"api,omitempty"`
+	API string `json:"api,omitempty"`
 }
 
 type c15Case struct {
@@ -105,13 +117,13 @@ type c15Case struct {
 }
 
 var (
-	c15GoodNames = []string{"a", "b", "c", "d", "a_time", "c_time"}
+	c15GoodNames = []string{"a", "b", "c", "d", "e", "f", "g", "a_time", "c_time", "a", "c"}
 	c15BadNames  = []string{"", "1a", "a b", "a-b"}
-	c15Kinds     = []string{"index", "index", "index", "fixed", "fixed", "fixed", "var", "virtual", "virtual", "free", "free", "freeidx", "calc", "calc", "vindex"}
+	c15Kinds     = []string{"index", "index", "index", "index", "fixed", "fixed", "fixed", "fixed", "var", "var", "virtual", "virtual", "virtual", "free", "free", "free", "freeidx", "calc", "calc", "calc", "vindex"}
 )
 
 func c15DrawName(t *rapid.T, label string) string {
-	if rapid.IntRange(0, 11).Draw(t, label+"_bad") == 0 {
+	if rapid.IntRange(0, 29).Draw(t, label+"_bad") == 0 {
 		return rapid.SampledFrom(c15BadNames).Draw(t, label)
 	}
 	return rapid.SampledFrom(c15GoodNames).Draw(t, label)
@@ -130,7 +142,7 @@ func c15DrawRef(t *rapid.T, label string) int {
 func genC15(t *rapid.T) c15Case {
 	c := c15Case{Seed: int64(rapid.IntRange(1, 1<<20).Draw(t, "seed")), Nodes: rapid.IntRange(1, 3).Draw(t, "nodes"), Validate: rapid.IntRange(0, 2).Draw(t, "validate") > 0}
 	lease := func(label string) int {
-		if rapid.IntRange(0, 19).Draw(t, label+"_ghost") == 0 {
+		if rapid.IntRange(0, 39).Draw(t, label+"_ghost") == 0 {
 			return c.Nodes + 1
 		}
 		return rapid.IntRange(0, c.Nodes).Draw(t, label)
@@ -150,6 +162,9 @@ func genC15(t *rapid.T) c15Case {
 			taken := map[string]bool{}
 			for s := rapid.IntRange(1, 4).Draw(t, "nspecs"); s > 0; s-- {
 				sp := c15Spec{Name: c15DrawName(t, "name"), Kind: rapid.SampledFrom(c15Kinds).Draw(t, "kind"), Lease: lease("lease")}
+				if i == 0 && len(op.Specs) == 0 && rapid.IntRange(0, 3).Draw(t, "first_index") > 0 {
+					sp.Kind = "index" // something for data channels to refer to
+				}
 				if op.Opt != "" {
 					// what the two options do to names that occur twice in one batch depends
 					// on the order in which the service works through the batch, which is no
@@ -164,7 +179,10 @@ func genC15(t *rapid.T) c15Case {
 					}
 				}
 				if sp.Kind == "fixed" || sp.Kind == "var" {
-					sp.Idx = rapid.IntRange(-2, 7).Draw(t, "idx")
+					sp.Idx = rapid.IntRange(0, 7).Draw(t, "idx")
+					if miss := rapid.IntRange(0, 11).Draw(t, "idx_miss"); miss < 2 {
+						sp.Idx = miss - 2
+					}
 					sp.Follow = rapid.IntRange(0, 4).Draw(t, "follow") > 0
 				}
 				op.Specs = append(op.Specs, sp)
@@ -443,6 +461,7 @@ func runC15(t *testing.T, c c15Case, st *drv.Stats) (fail *drv.Failure) {
 			fail = drv.Failf("panic", c15FirstLine(msg), "panic: %v", p)
 		}
 	}()
+	c15LastInconclusive = ""
 	rand.Seed(c.Seed + 15) // workers run with GODEBUG=randseednop=0
 	uuid.SetRand(&c15DetReader{x: uint64(c.Seed)*2654435761 + 15})
 	defer uuid.SetRand(nil)
@@ -451,6 +470,9 @@ func runC15(t *testing.T, c c15Case, st *drv.Stats) (fail *drv.Failure) {
 		if f, err := os.OpenFile(p, os.O_CREATE|os.O_APPEND|os.O_WRONLY, 0o644); err == nil {
 			cj, _ := json.Marshal(c)
 			out := "pass"
+			if c15LastInconclusive != "" {
+				out = "inconclusive " + c15LastInconclusive
+			}
 			if fail != nil {
 				out = fail.Class + " " + fail.Sig + " :: " + fail.Msg
 			}
@@ -468,6 +490,7 @@ func runC15(t *testing.T, c c15Case, st *drv.Stats) (fail *drv.Failure) {
 // failure is dropped, so that the shrinker works on the one being looked at. Never set by
 // the check.
 var c15TraceN int
+var c15LastInconclusive string
 
 // c15Debug (VERIF_C15_DEBUG=1): print every request and the model after it (triage aid).
 var c15Debug = os.Getenv("VERIF_C15_DEBUG") != ""
@@ -526,13 +549,19 @@ type c15Run struct {
 	// (see checkNameLookup); later name-related failures carry the marker in their signature
 	idxStale string
 	// autoNames: the names of the index channels the current create makes up for its
-	// calculated channels (minus those the request also asks for by name)
+	// calculated channels
 	autoNames map[string]bool
 	// lookupFail: the first disagreement between a node's retrieval by name and its own
 	// metadata. The statement speaks of names, not of look-ups, so the case goes on (the
 	// service finds name conflicts and by-name targets through this look-up: failures that
 	// follow carry a marker) and ends with this failure if nothing else went wrong.
 	lookupFail *drv.Failure
+	// dupRetrieve: a create with RetrieveIfNameExists has met a name that several existing
+	// channels carry (possible with name validation off, or after the index of a calculated
+	// channel was created twice). The service then takes fewer keys from its counter than
+	// it hands out; key collisions that follow carry the marker in their signature.
+	dupRetrieve string
+	staleWhat   string
 }
 
 func (r *c15Run) svc(k int) *channel.Service { return r.cl.nodes[node.Key(k)].layer.Channel }
@@ -596,31 +625,38 @@ func c15Authority(k channel.Key) node.Key {
 // business and a known finding there; about one case in a thousand here). Which rounds
 // die is decided by goroutine timing the harness does not control, so the case must not
 // depend on it: when the views still disagree after 1.5 s (150 gossip rounds), settle
-// starts a fresh rumor for every channel some node is behind on by repeating the last
-// request in a form that changes nothing - through the channel's authority, a rename to
-// the name it has, or a delete of the key that is gone - and waits again. stale reports
-// that even four such rounds did not help.
+// starts a fresh rumor for every channel some node is behind on, at the channel's
+// authority, in a form that changes nothing: for a channel that exists, a rename to the
+// name it has; for one that is gone but lingers on a peer (the service does not write
+// when asked to delete a missing key), the entry is put back and deleted again directly
+// in the authority's metadata store. Then it waits again. stale reports that even four
+// such rounds did not help.
 func (r *c15Run) settle(want map[channel.Key]c15Row) (auth map[channel.Key]c15Row, stale bool, err error) {
 	if want == nil {
 		time.Sleep(simrt.UniqueDur(60 * time.Millisecond))
 	}
 	for attempt := 0; ; attempt++ {
-		var behind []channel.Key
+		var behind map[channel.Key]c15Row
 		var done bool
 		auth, behind, done, err = r.settleOnce(want)
 		if err != nil || done || len(behind) == 0 {
 			return auth, false, err
 		}
 		if attempt == 4 {
+			r.staleWhat = fmt.Sprintf("behind on %v", c15SortedKeys(behind))
 			return auth, true, nil
 		}
 		r.st.Probe("gossip_died_out_rumor_restarted")
-		for _, k := range behind {
+		for _, k := range c15SortedKeys(behind) {
 			n := r.cl.nodes[c15Authority(k)]
 			if row, ok := auth[k]; ok {
 				_ = n.layer.Channel.RenameMany(r.ctx, channel.Keys{k}, []string{row.Name}, true)
-			} else {
-				_ = n.layer.Channel.DeleteMany(r.ctx, channel.Keys{k}, true)
+				continue
+			}
+			row := behind[k]
+			ch := channel.Channel{Name: row.Name, Leaseholder: row.Lease, DataType: row.DT, IsIndex: row.IsIndex, LocalKey: k.LocalKey(), LocalIndex: row.Index.LocalKey(), Virtual: row.Virtual, Internal: row.Internal, Expression: row.Expr}
+			if err := gorp.NewCreate[channel.Key, channel.Channel]().Entry(&ch).Exec(r.ctx, n.layer.DB); err == nil {
+				_ = gorp.NewDelete[channel.Key, channel.Channel]().Where(gorp.MatchKeys[channel.Key, channel.Channel](k)).Exec(r.ctx, n.layer.DB)
 			}
 		}
 	}
@@ -628,8 +664,8 @@ func (r *c15Run) settle(want map[channel.Key]c15Row) (auth map[channel.Key]c15Ro
 
 // settleOnce polls for at most 1.5 s. done: nothing more to wait for (views agree, or the
 // authorities contradict want). behind: the channels on which some node's view differs
-// from the authorities' when the time ran out.
-func (r *c15Run) settleOnce(want map[channel.Key]c15Row) (auth map[channel.Key]c15Row, behind []channel.Key, done bool, err error) {
+// from the authorities' when the time ran out (with a lagging node's copy).
+func (r *c15Run) settleOnce(want map[channel.Key]c15Row) (auth map[channel.Key]c15Row, behind map[channel.Key]c15Row, done bool, err error) {
 	deadline := time.Now().Add(1500 * time.Millisecond)
 	var prev map[channel.Key]c15Row
 	stable, wrong := 0, 0
@@ -677,20 +713,21 @@ func (r *c15Run) settleOnce(want map[channel.Key]c15Row) (auth map[channel.Key]c
 			if agree {
 				return auth, nil, true, nil
 			}
-			diff := map[channel.Key]bool{}
+			diff := map[channel.Key]c15Row{}
 			for _, n := range r.cl.order {
-				for k, row := range views[n.key] {
+				for _, k := range c15SortedKeys(views[n.key]) {
+					row := views[n.key][k]
 					if a, ok := auth[k]; !ok || a != row {
-						diff[k] = true
+						diff[k] = row
 					}
 				}
-				for k := range auth {
+				for k, a := range auth {
 					if _, ok := views[n.key][k]; !ok {
-						diff[k] = true
+						diff[k] = a
 					}
 				}
 			}
-			return auth, c15SortedKeys(diff), false, nil
+			return auth, diff, false, nil
 		}
 		time.Sleep(simrt.UniqueDur(30 * time.Millisecond))
 	}
@@ -753,13 +790,25 @@ func (x c15Ctx) sig() string {
 	return s + ":" + x.outcome
 }
 
+// byName: the request finds the channels it works on by their names.
+func (x c15Ctx) byName() bool { return x.opt != "" || x.api == "names" }
+
+// staleMark: the marker for failures of requests that find channels by name, once a
+// node's name look-up has been seen to be off.
+func (r *c15Run) staleMark(x c15Ctx) string {
+	if x.byName() {
+		return r.idxStale
+	}
+	return ""
+}
+
 // checkStores compares the model with every node's metadata and every node's engine.
 func (r *c15Run) checkStores(x c15Ctx, what string, auth map[channel.Key]c15Row) *drv.Failure {
 	for _, k := range c15SortedKeys(r.live) {
 		want := r.live[k]
 		got, ok := auth[k]
 		if !ok {
-			return drv.Failf("metadata-mismatch", x.sig()+":missing:"+want.kind()+":"+r.via(x.gw, want.Lease), "%s: cluster metadata (node %d's, the channel's authority) does not hold channel %v, which exists", what, c15Authority(k), want)
+			return drv.Failf("metadata-mismatch", x.sig()+":missing:"+want.kind()+":"+r.via(x.gw, want.Lease)+r.staleMark(x), "%s: cluster metadata (node %d's, the channel's authority) does not hold channel %v, which exists", what, c15Authority(k), want)
 		}
 		if want.Expr != "" {
 			// the index of a calculated channel is a channel the service makes up; the
@@ -771,7 +820,7 @@ func (r *c15Run) checkStores(x c15Ctx, what string, auth map[channel.Key]c15Row)
 			if d == "name" && x.op == "rename" && x.api == "names" && x.outcome == "ok" {
 				return drv.Failf("by-name-request-missed-channel", "rename:"+want.kind()+":"+r.via(x.gw, want.Lease)+r.idxStale, "%s reported success, but cluster metadata (node %d's) still holds %v", what, c15Authority(k), got)
 			}
-			return drv.Failf("metadata-mismatch", x.sig()+":field-"+d+":"+want.kind()+":"+r.via(x.gw, want.Lease), "%s: cluster metadata (node %d's) holds %v where the requests amount to %v", what, c15Authority(k), got, want)
+			return drv.Failf("metadata-mismatch", x.sig()+":field-"+d+":"+want.kind()+":"+r.via(x.gw, want.Lease)+r.staleMark(x), "%s: cluster metadata (node %d's) holds %v where the requests amount to %v", what, c15Authority(k), got, want)
 		}
 		if got.Key.Leaseholder() != got.Lease {
 			return drv.Failf("key-leaseholder-mismatch", "metadata:"+want.kind(), "%s: cluster metadata holds channel %v whose key embeds node %d but whose leaseholder is %d", what, got, got.Key.Leaseholder(), got.Lease)
@@ -787,7 +836,7 @@ func (r *c15Run) checkStores(x c15Ctx, what string, auth map[channel.Key]c15Row)
 			if how == "deleted" && x.op == "delete" && x.api == "names" && x.outcome == "ok" {
 				return drv.Failf("by-name-request-missed-channel", "delete:"+got.kind()+":"+r.via(x.gw, got.Lease)+r.idxStale, "%s reported success, but cluster metadata (node %d's) still holds %v", what, c15Authority(k), got)
 			}
-			return drv.Failf("metadata-mismatch", x.sig()+":extra-"+how+":"+got.kind()+":"+r.via(x.gw, got.Lease), "%s: cluster metadata (node %d's) holds channel %v, which is %s", what, c15Authority(k), got, how)
+			return drv.Failf("metadata-mismatch", x.sig()+":extra-"+how+":"+got.kind()+":"+r.via(x.gw, got.Lease)+r.staleMark(x), "%s: cluster metadata (node %d's) holds channel %v, which is %s", what, c15Authority(k), got, how)
 		}
 	}
 	probe := append(c15SortedKeys(r.live), c15SortedKeys(r.deleted)...)
@@ -942,7 +991,7 @@ func (r *c15Run) adopt(x c15Ctx, what string, obs map[channel.Key]c15Row, mayCre
 		old, ok := r.live[k]
 		if !ok {
 			if r.ever[k] {
-				return nil, nil, nil, drv.Failf("key-reused", x.sig()+":"+got.kind(), "%s: after the failed request metadata holds %v under a key that an earlier channel had", what, got)
+				return nil, nil, nil, drv.Failf("key-reused", x.sig()+":"+got.kind()+r.dupRetrieve, "%s: after the failed request metadata holds %v under a key that an earlier channel had", what, got)
 			}
 			if !mayCreate[got.Name] {
 				return nil, nil, nil, drv.Failf("unrequested-change", x.sig()+":created:"+got.kind(), "%s: the failed request left channel %v behind, which it did not ask for", what, got)
@@ -957,6 +1006,10 @@ func (r *c15Run) adopt(x c15Ctx, what string, obs map[channel.Key]c15Row, mayCre
 			continue
 		}
 		if d := old.diff(got, true); d != "" {
+			if x.op == "create" && mayCreate[got.Name] {
+				// a create never touches an existing channel: a new one was stored under its key
+				return nil, nil, nil, drv.Failf("key-not-unique", "existing-channel:replaced-by-failed-create"+r.dupRetrieve, "%s: the failed request stored %v under the key of existing channel %v", what, got, old)
+			}
 			if nn, ok := mayRename[k]; !(ok && d == "name" && nn == got.Name) {
 				return nil, nil, nil, drv.Failf("unrequested-change", x.sig()+":changed-"+d+":"+old.kind(), "%s: the failed request changed channel %v into %v", what, old, got)
 			}
@@ -1020,6 +1073,7 @@ func (r *c15Run) body() (fail *drv.Failure) {
 	}
 	if stale {
 		r.st.Inconcl("metadata_not_propagated_to_every_node")
+		c15LastInconclusive = "at start: " + r.staleWhat
 		return nil
 	}
 	for _, k := range c15SortedKeys(auth) {
@@ -1050,6 +1104,7 @@ func (r *c15Run) body() (fail *drv.Failure) {
 				return r.lookupFail
 			}
 			r.st.Inconcl("metadata_not_propagated_to_every_node")
+			c15LastInconclusive = r.staleWhat
 			return nil
 		}
 		if len(r.deleted) > 0 && len(r.live) > r.c.Nodes {
@@ -1084,10 +1139,10 @@ func (r *c15Run) finish(x c15Ctx, what string, touched []channel.Key, how map[ch
 	if err != nil {
 		return drv.Failf("unexpected-error", "retrieve-all", "%s: %v", what, err)
 	}
-	if f := r.checkNames(x, what, touched, how); f != nil {
+	if f := r.checkStores(x, what, auth); f != nil {
 		return f
 	}
-	if f := r.checkStores(x, what, auth); f != nil {
+	if f := r.checkNames(x, what, touched, how); f != nil {
 		return f
 	}
 	if stale {
@@ -1246,6 +1301,18 @@ func (r *c15Run) doCreate(oi int, op c15Op) *drv.Failure {
 	switch op.Opt {
 	case "retrieve":
 		opts = append(opts, channel.RetrieveIfNameExists())
+		for nm := range mayCreate {
+			n := 0
+			for _, e := range r.live {
+				if e.Name == nm {
+					n++
+				}
+			}
+			if n > 1 && r.dupRetrieve == "" {
+				r.dupRetrieve = ":after-retrieve-if-name-exists-met-a-name-several-channels-have"
+				r.st.Probe("retrieve_if_name_exists_met_a_name_several_channels_have")
+			}
+		}
 	case "overwrite":
 		opts = append(opts, channel.OverwriteIfNameExistsAndDifferentProperties())
 	}
@@ -1262,11 +1329,6 @@ func (r *c15Run) doCreate(oi int, op c15Op) *drv.Failure {
 		r.st.Probe("create_failed")
 		if len(op.Specs) > 1 {
 			r.st.Probe("create_batch_failed")
-		}
-		for _, sp := range op.Specs {
-			if sp.Kind == "freeidx" {
-				delete(autoNames, sp.Name)
-			}
 		}
 		mayDelete := map[channel.Key]bool{}
 		if op.Opt == "overwrite" {
@@ -1351,6 +1413,7 @@ func (r *c15Run) doCreate(oi int, op c15Op) *drv.Failure {
 		}
 	}
 	seen := map[channel.Key]bool{}
+	seenName := map[channel.Key]string{}
 	auto := map[channel.Key]bool{}
 	newRows := map[int]c15Row{}
 	for i, ch := range chans {
@@ -1360,22 +1423,23 @@ func (r *c15Run) doCreate(oi int, op c15Op) *drv.Failure {
 			kindName = wants[matched[i]].spec.Kind
 		}
 		if seen[k] {
-			if op.Opt != "" {
+			if op.Opt != "" && seenName[k] == ch.Name {
 				// a later part of the batch found the channel an earlier part had created
 				r.st.Probe("create_returned_a_channel_of_the_same_request_twice")
 				continue
 			}
-			return drv.Failf("key-not-unique", "same-request:"+kindName, "%s returned key %d twice: %v", what, k, chans)
+			return drv.Failf("key-not-unique", "same-request:"+kindName+r.dupRetrieve, "%s returned key %d twice: %v", what, k, chans)
 		}
 		seen[k] = true
+		seenName[k] = ch.Name
 		if e, ok := before[k]; ok {
 			// an existing channel was handed back
 			if op.Opt == "" {
-				return drv.Failf("key-not-unique", "existing-channel:"+kindName, "%s returned %v under the key of existing channel %v", what, ch, e)
+				return drv.Failf("key-not-unique", "existing-channel:"+kindName+r.dupRetrieve, "%s returned %v under the key of existing channel %v", what, ch, e)
 			}
-			if e.Name != ch.Name {
-				// the two options hand back existing channels by name only
-				return drv.Failf("key-not-unique", "existing-channel:"+kindName, "%s returned %v under the key of existing channel %v", what, ch, e)
+			if e.Name != ch.Name || e.DT != ch.DataType || e.IsIndex != ch.IsIndex || e.Virtual != ch.Virtual || e.Expr != ch.Expression {
+				// the two options hand back existing channels, found by name, as they are
+				return drv.Failf("key-not-unique", "existing-channel:"+kindName+r.dupRetrieve, "%s returned %v (type %s, is_index %v, virtual %v) under the key of existing channel %v", what, ch, ch.DataType, ch.IsIndex, ch.Virtual, e)
 			}
 			if _, still := r.live[k]; !still {
 				return drv.Failf("create-result-mismatch", "overwrite-returned-differing-channel:"+kindName, "%s returned existing channel %v although its properties differ from the request (returned: %v)", what, e, chans)
@@ -1384,7 +1448,7 @@ func (r *c15Run) doCreate(oi int, op c15Op) *drv.Failure {
 			continue
 		}
 		if r.ever[k] {
-			return drv.Failf("key-reused", x.sig()+":"+kindName, "%s gave new channel %v the key %d, which deleted channel %v had", what, ch, k, r.deleted[k])
+			return drv.Failf("key-reused", x.sig()+":"+kindName+r.dupRetrieve, "%s gave new channel %v the key %d, which deleted channel %v had", what, ch, k, r.deleted[k])
 		}
 		var row c15Row
 		if j := matched[i]; j >= 0 {
@@ -1507,13 +1571,13 @@ func (r *c15Run) doRename(oi int, op c15Op) *drv.Failure {
 		mayRename[keys[0]] = names[0]
 	case "names":
 		// MapRename addresses channels by their current names: every live channel with
-		// one of those names is renamed
+		// that name is renamed. One entry only: the service turns the map into a list in
+		// Go's map order, and when a request fails half way the order decides what the
+		// failure leaves behind.
 		m := map[string]string{}
 		for i, k := range keys {
-			if e, ok := r.live[k]; ok && c15ValidName.MatchString(e.Name) {
-				if _, dup := m[e.Name]; !dup {
-					m[e.Name] = names[i]
-				}
+			if e, ok := r.live[k]; ok && c15ValidName.MatchString(e.Name) && len(m) == 0 {
+				m[e.Name] = names[i]
 			}
 		}
 		if len(m) == 0 {
